@@ -130,6 +130,7 @@ struct Run<'a> {
     batch_floor: usize,          // commits with number >= this were created in the current batch
     failure: Option<(&'static str, String)>,
     low_level: bool,
+    foreign: BTreeSet<usize>,    // commits created on a concurrent branch (op-merge stream)
     aborted: Option<String>,
     views: usize,
     out: &'a mut Out,
@@ -236,11 +237,11 @@ fn key_candidates(run: &Run) -> Vec<usize> {
     }).collect()
 }
 
-fn gen_target(r: &mut Rng, n: usize) -> T {
-    let term = |r: &mut Rng| if r.chance(1, 8) { None } else { Some(r.below(n)) };
+fn gen_target(r: &mut Rng, pool: &[usize]) -> T {
+    let term = |r: &mut Rng| if r.chance(1, 8) { None } else { Some(*r.pick(pool)) };
     match r.below(10) {
         0 => vec![None],
-        1..=6 => vec![Some(r.below(n))],
+        1..=6 => vec![Some(*r.pick(pool))],
         7..=8 => (0..3).map(|_| term(r)).collect(),
         _ => (0..5).map(|_| term(r)).collect(),
     }
@@ -320,39 +321,42 @@ impl Run<'_> {
 
 /// next random operation (may inspect the real state to stay inside the intended op set)
 fn gen_op(run: &Run, r: &mut Rng, last: bool, low_level: bool, probe_root: bool) -> Option<Op> {
-    let n = run.sim.commits.len();
-    let pick_nonroot = |r: &mut Rng, n: usize| if n > 1 { r.range(1, n - 1) } else { 0 };
+    // commits this transaction may refer to (commits created on a concurrent branch are not indexed here)
+    let pool: Vec<usize> = (0..run.sim.commits.len()).filter(|c| !run.foreign.contains(c)).collect();
+    let nonroot: Vec<usize> = pool.iter().cloned().filter(|&c| c != 0).collect();
+    let n = pool.len();
+    let pick_nonroot = |r: &mut Rng| if nonroot.is_empty() { 0 } else { *r.pick(&nonroot) };
     let choice = r.below(100);
     if n < 3 || choice < 28 {
         // new commit: on root, on one commit, or a merge of 2–3 non-root commits
         // (no children on commits recorded as rewritten/abandoned in the open batch, see notes)
-        let free: Vec<usize> = (1..n).filter(|c| !run.keys.contains(c)).collect();
+        let free: Vec<usize> = nonroot.iter().cloned().filter(|c| !run.keys.contains(c)).collect();
         Some(Op::New(if free.is_empty() || r.chance(1, 8) { vec![0] }
             else if r.chance(3, 4) { vec![*r.pick(&free)] }
             else { let mut v = vec![]; for _ in 0..r.range(2, 3) { let p = *r.pick(&free); if !v.contains(&p) { v.push(p); } } v }))
     } else if choice < 40 {
-        let cands = key_candidates(run);
+        let cands: Vec<usize> = key_candidates(run).into_iter().filter(|c| !run.foreign.contains(c)).collect();
         if cands.is_empty() { None } else { let c = *r.pick(&cands); Some(if r.chance(1, 2) { Op::Rw(c) } else { Op::Ab(c) }) }
     } else if choice < 46 {
         if run.keys.is_empty() { None } else { Some(Op::Rebase) }
     } else if choice < 62 {
-        Some(Op::Bm(r.below(3), gen_target(r, n)))
+        Some(Op::Bm(r.below(3), gen_target(r, &pool)))
     } else if choice < 72 {
-        Some(Op::Edit(r.below(2), if probe_root && r.chance(1, 6) { 0 } else { pick_nonroot(r, n) }))
+        Some(Op::Edit(r.below(2), if probe_root && r.chance(1, 6) { 0 } else { pick_nonroot(r) }))
     } else if choice < 80 {
         let w = r.below(2);
-        let free: Vec<usize> = (0..n).filter(|c| !run.keys.contains(c)).collect();
+        let free: Vec<usize> = pool.iter().cloned().filter(|c| !run.keys.contains(c)).collect();
         Some(Op::Co(w, *r.pick(&free)))
     } else if choice < 83 {
         Some(Op::RmWs(r.below(2)))
     } else if choice < 88 {
-        Some(Op::AddHead(if probe_root && r.chance(1, 4) { 0 } else { pick_nonroot(r, n) }))
+        Some(Op::AddHead(if probe_root && r.chance(1, 4) { 0 } else { pick_nonroot(r) }))
     } else if choice < 92 && low_level {
-        Some(Op::RmHead(r.below(n)))
+        Some(Op::RmHead(*r.pick(&pool)))
     } else if choice < 94 {
         // raw set_wc_commit: visible commits only unless low_level
         let vis = run.visible();
-        Some(Op::SetWc(r.below(2), if low_level { r.below(n) } else { *r.pick(&vis) }))
+        Some(Op::SetWc(r.below(2), if low_level { *r.pick(&pool) } else { *r.pick(&vis) }))
     } else if !last { Some(Op::Commit) } else { None }
 }
 
@@ -366,7 +370,7 @@ fn one_sequence(test_repo: &TestRepo, out: &mut Out, r: &mut Rng, src: Source, s
     sim.register(&root);
     let tx = repo.start_transaction();
     let mut run = Run { sim, tx: Some(tx), repo, ops: vec![], trace: vec![], keys: BTreeSet::new(), batch_floor: 1,
-                        failure: None, low_level: !coverage, aborted: None, views: 0, out };
+                        failure: None, low_level: !coverage, foreign: BTreeSet::new(), aborted: None, views: 0, out };
     let res = guard(|| {
         match src {
             Source::Random { len, low_level, probe_root } => {
@@ -410,6 +414,85 @@ fn one_sequence(test_repo: &TestRepo, out: &mut Out, r: &mut Rng, src: Source, s
     }
 }
 
+/// Operation merges (oracle only — `merge_operations` is not modelled): a base transaction, 2–3
+/// concurrent transactions on top of it, `RepoLoader::merge_operations` (which also rebases), then
+/// one more transaction on the merged repo.  The property is evaluated on every committed view.
+fn merge_sequence(test_repo: &TestRepo, out: &mut Out, r: &mut Rng) {
+    let repo = test_repo.repo.clone();
+    let root = repo.store().root_commit();
+    let mut sim = Sim { commits: vec![], parents: vec![], num: HashMap::new() };
+    sim.register(&root);
+    let tx = repo.start_transaction();
+    let mut run = Run { sim, tx: Some(tx), repo, ops: vec![], trace: vec![], keys: BTreeSet::new(), batch_floor: 1,
+                        failure: None, low_level: false, foreign: BTreeSet::new(), aborted: None, views: 0, out };
+    let res = guard(|| {
+        let phase = |run: &mut Run, r: &mut Rng, len: usize| {
+            for _ in 0..len { if run.aborted.is_some() { return; } if let Some(op) = gen_op(run, r, true, false, false) { run.apply(&op); } }
+            if run.aborted.is_none() { run.do_commit(); }
+        };
+        let l = r.range(4, 12); phase(&mut run, r, l);
+        if run.aborted.is_some() { return; }
+        let base = run.repo.clone();
+        let base_floor = run.sim.commits.len();
+        let mut branches: Vec<Arc<ReadonlyRepo>> = vec![];
+        for _ in 0..r.range(2, 3) {
+            run.tx = Some(base.start_transaction());
+            run.repo = base.clone();
+            run.keys.clear();
+            run.batch_floor = base_floor;
+            run.foreign = (base_floor..run.sim.commits.len()).collect();
+            run.ops.push("|branch|".into());
+            let l = r.range(2, 10); phase(&mut run, r, l);
+            if run.aborted.is_some() { return; }
+            branches.push(run.repo.clone());
+        }
+        run.foreign.clear();
+        let ops: Vec<_> = branches.iter().map(|b| b.operation().clone()).collect();
+        let merged = match base.loader().merge_operations(ops, None, None, []).block_on() {
+            Ok((m, _)) => m,
+            // same millisecond, same content: see `do_rebase`
+            Err(e) if format!("{e:?}").contains("already exists") => { run.aborted = Some("already exists".into()); return; }
+            Err(e) => panic!("merge_operations: {e:?}"),
+        };
+        run.ops.push("|merge|".into());
+        // commits created by the merge's rebase: discover from everything the view references
+        let mut stack: Vec<CommitId> = merged.view().heads().iter().cloned().collect();
+        stack.extend(merged.view().wc_commit_ids().values().cloned());
+        for (_, t) in merged.view().local_bookmarks() { stack.extend(t.added_ids().cloned()); }
+        let mut unknown: Vec<Commit> = vec![];
+        while let Some(id) = stack.pop() {
+            if run.sim.num.contains_key(&id) || unknown.iter().any(|c| c.id() == &id) { continue; }
+            let c = merged.store().get_commit(&id).unwrap();
+            stack.extend(c.parent_ids().iter().cloned());
+            unknown.push(c);
+        }
+        for c in unknown.iter().rev() { run.sim.register(c); }
+        run.sim.fix_parents();
+        let (s, heads, bms, wcs) = view_string(&run.sim, &merged);
+        run.trace.push(s);
+        run.views += 1;
+        if run.failure.is_none() {
+            if let Some(f) = check_inv(&run.sim, &heads, &bms, &wcs, true) { run.failure = Some((f.0, format!("after operation merge: {}", f.1))); }
+        }
+        // continue on the merged repo
+        run.tx = Some(merged.start_transaction());
+        run.repo = merged;
+        run.keys.clear();
+        run.batch_floor = run.sim.commits.len();
+        let l = r.range(2, 8); phase(&mut run, r, l);
+    });
+    if run.aborted.is_some() { run.out.tally("discarded", "commit-id-collision"); return; }
+    run.out.impl_only();
+    run.out.tally("stream", "op-merge(oracle only)");
+    if run.sim.commits.len() >= 4 { let key = run.ops.clone(); run.out.nontrivial(key); }
+    let ops = run.ops.join(" ");
+    match (res, run.failure.take()) {
+        (Err(e), _) => run.out.oracle_fail("heads:panic-in-op-merge", format!("{e}; ops={ops}")),
+        (Ok(()), Some((sig, detail))) => run.out.oracle_fail(&format!("{sig}:op-merge"), format!("{detail}; ops={ops}; views={}", run.trace.join(" "))),
+        (Ok(()), None) => run.out.oracle_ok(),
+    }
+}
+
 pub fn run(cfg: &Cfg, out: &mut Out) {
     // the op store / index fsync a lot: keep the scratch repos on tmpfs when available
     if std::env::var_os("TMPDIR").is_none() && std::path::Path::new("/dev/shm").is_dir() {
@@ -424,14 +507,18 @@ pub fn run(cfg: &Cfg, out: &mut Out) {
         return;
     }
     let n = cfg.n(4000, 100_000);
+    // one RNG per sequence: a sequence discarded for a (timing dependent) id collision does not
+    // shift the inputs of the following ones
     for i in 0..n {
         if i % 100 == 99 { test_repo = TestRepo::init(); }
+        let mut r = cfg.rng(100_000 + i);
         let len = if i < 50 { 4 + (i as usize) / 5 } else { r.range(8, 40) };
         one_sequence(&test_repo, out, &mut r, Source::Random { len, low_level: false, probe_root: false }, "main", true);
     }
     let mut r2 = cfg.rng(1010);
     for i in 0..cfg.n(800, 20_000) {
         if i % 100 == 99 { test_repo = TestRepo::init(); }
+        let mut r2 = cfg.rng(10_000_000 + i);
         let len = r2.range(6, 30);
         one_sequence(&test_repo, out, &mut r2, Source::Random { len, low_level: true, probe_root: false }, "normalisation-only", false);
     }
@@ -441,10 +528,15 @@ pub fn run(cfg: &Cfg, out: &mut Out) {
         let ops: Vec<Op> = script.split(' ').map(|s| parse_op(s).unwrap()).collect();
         one_sequence(&test_repo, out, &mut r2, Source::Script(&ops), "root-probe", true);
     }
-    let mut r3 = cfg.rng(2010);
-    for _ in 0..cfg.n(40, 1_000) {
+    for i in 0..cfg.n(40, 1_000) {
+        let mut r3 = cfg.rng(20_000_000 + i);
         let len = r3.range(4, 16);
         one_sequence(&test_repo, out, &mut r3, Source::Random { len, low_level: false, probe_root: true }, "root-probe", true);
+    }
+    for i in 0..cfg.n(600, 15_000) {
+        if i % 100 == 99 { test_repo = TestRepo::init(); }
+        let mut r4 = cfg.rng(30_000_000 + i);
+        merge_sequence(&test_repo, out, &mut r4);
     }
     out.note(format!("{n} op sequences (main stream: full invariant) + normalisation-only stream with remove_head / raw set_wc_commit"));
 }
